@@ -1294,6 +1294,17 @@ class BaseOutlineCompiler:
                     self.otf.sfntVersion = sfntVersion
 
 
+def _cffString(s):
+    """CFF strings are stored as Latin-1: leave encodable strings alone,
+    reduce the others to ASCII."""
+    if s is not None:
+        try:
+            s.encode("latin-1")
+        except UnicodeEncodeError:
+            s = normalizeStringForPostscript(s)
+    return s
+
+
 class OutlineOTFCompiler(BaseOutlineCompiler):
     """Compile a .otf font with CFF outlines."""
 
@@ -1536,11 +1547,11 @@ class OutlineOTFCompiler(BaseOutlineCompiler):
         if copyright is None:
             copyright = ""
         topDict.Copyright = copyright
-        topDict.FullName = getAttrWithFallback(info, "postscriptFullName")
-        topDict.FamilyName = getAttrWithFallback(
-            info, "openTypeNamePreferredFamilyName"
+        topDict.FullName = _cffString(getAttrWithFallback(info, "postscriptFullName"))
+        topDict.FamilyName = _cffString(
+            getAttrWithFallback(info, "openTypeNamePreferredFamilyName")
         )
-        topDict.Weight = getAttrWithFallback(info, "postscriptWeightName")
+        topDict.Weight = _cffString(getAttrWithFallback(info, "postscriptWeightName"))
         # populate various numbers
         topDict.isFixedPitch = int(getAttrWithFallback(info, "postscriptIsFixedPitch"))
         topDict.ItalicAngle = float(getAttrWithFallback(info, "italicAngle"))
